@@ -34,11 +34,12 @@ def graph_spec(rules):
     return undefined, cyclic
 
 
-def impl_check(rules):
+def impl_check(rules, skip_undefined=False):
     from oslo_config import cfg
     from oslo_policy import policy
     from world import fresh_conf
     e = policy.Enforcer(fresh_conf(), policy_file='policy.yaml', use_conf=False)
+    e.skip_undefined_check = skip_undefined
     e.set_rules(policy.Rules.from_dict(rules), use_conf=False)
     ok = e.check_rules()
     names = []
@@ -110,6 +111,14 @@ def run(run, binfo):
                           % (rs, (ok, names_), s_und, s_cyc),
                           {'kind': 'failing-input', 'suite': 'spec-c13', 'input': {'rules': rs},
                            'expected': [not (s_und or s_cyc), s_und + s_cyc], 'observed': [ok, names_]})
+        if s_cyc or (s_und and run.evaluations % 3 == 0):
+            # with the undefined-reference test switched off (skip_undefined_check) cycles are still reported, all of them
+            ok2, names2 = impl_check(rs, skip_undefined=True)
+            if (ok2, names2) != (not s_cyc, s_cyc):
+                run.violation('validation:skip-undefined', 'check_rules with skip_undefined_check on %r reports %r, graph '
+                              'analysis says cyclic=%r' % (rs, (ok2, names2), s_cyc),
+                              {'kind': 'failing-input', 'suite': 'spec-c13', 'input': {'rules': rs, 'skip_undefined_check': True},
+                               'expected': [not s_cyc, s_cyc], 'observed': [ok2, names2]})
         if s_und or s_cyc:
             run.nontrivial.add(repr(sorted(rs.items())))
         if ok:
@@ -160,11 +169,13 @@ def validator_cases(run, bad_corr):
     logging.getLogger('oslo_policy').addHandler(logging.NullHandler())
     regsets = [[('a', 'role:x', None, None), ('b', '!', None, None), ('c', 'rule:a', None, None)]]
     values = ['role:x', '!', '@', 'rule:a', 'rule:nope', 'not rule:nope', 'rule:b and rule:c', '(role:admin))',
-              'role:admin or', 'and', None, '', "'q'", 'not', 'rule:self']
+              'role:admin or', 'and', None, '', "'q'", 'not', 'rule:self',
+              # values YAML reads as something other than a string: not rules, whatever their truth value
+              False, True, 0, 0.0, 5, {}, {'k': 'v'}, [1], [[None]]]
     n = 0
     import itertools
     files = [None, {}]
-    for va, vb in itertools.product(values, values[:9]):
+    for va, vb in itertools.product(values[:15], values[:9]):
         files.append({'a': va, 'b': vb})
     for v in values:
         files.append({'b': v})
